@@ -592,6 +592,7 @@ func (s *PersistentSlabStorage) FastCommit(numWorkers int) error {
 			default:
 			}
 
+			verifEvent("fastcommit.job", id)
 			slab := s.deltas[id]
 			if slab == nil {
 				results <- &encodedSlabs{
@@ -603,6 +604,7 @@ func (s *PersistentSlabStorage) FastCommit(numWorkers int) error {
 			}
 			// serialize
 			data, err := EncodeSlab(slab, s.cborEncMode)
+			verifEvent("fastcommit.encoded", id)
 			results <- &encodedSlabs{
 				slabID: id,
 				data:   data,
@@ -726,6 +728,7 @@ func (s *PersistentSlabStorage) NondeterministicFastCommit(numWorkers int) error
 
 			id := job.slabID
 			slab := job.slab
+			verifEvent("ndcommit.job", id)
 
 			if slab == nil {
 				results <- encodedSlab{
@@ -738,6 +741,7 @@ func (s *PersistentSlabStorage) NondeterministicFastCommit(numWorkers int) error
 
 			// Serialize
 			data, err := EncodeSlab(slab, s.cborEncMode)
+			verifEvent("ndcommit.encoded", id)
 			results <- encodedSlab{
 				slabID: id,
 				data:   data,
@@ -1131,8 +1135,10 @@ func (s *PersistentSlabStorage) BatchPreload(ids []SlabID, numWorkers int) error
 
 			id := slabData.slabID
 			data := slabData.data
+			verifEvent("preload.job", id)
 
 			slab, err := DecodeSlab(id, data, s.cborDecMode, s.DecodeStorable, s.DecodeTypeInfo)
+			verifEvent("preload.decoded", id)
 			// err is already categorized by DecodeSlab().
 			results <- decodedSlab{
 				slabID: id,
